@@ -55,9 +55,11 @@ FAMILIES = {
                     leaves={'b': ['p'], 'l': ['y', 'd'], 'S': ['SB']}),
     'scancore': dict(kinds=['LSUB', 'LLT', 'SCAN', 'SCANF', 'SSCAN', 'TOAL'], roots='B', if_types='', let_types='',
                      leaves={'b': ['p'], 'l': ['y', 'd'], 'S': ['SB']}),
-    # five-node family: arithmetic, let and fold lambdas only
-    'lam5': dict(kinds=['SUB', 'LET', 'TOS', 'FOLD'], roots='i', if_types='i', let_types='i',
-                 leaves={'i': ['x'], 'a': ['A'], 's': ['SA']}),
+    # binder-centred family for 4 nodes; two-kind families for 5 nodes
+    'bind4': dict(kinds=['SUB', 'IF', 'LET', 'SMAP', 'FOLD', 'TOA'], roots='ia', if_types='i', let_types='i',
+                  leaves={'i': ['x'], 'b': ['p'], 's': ['SA']}),
+    'let5': dict(kinds=['SUB', 'LET'], roots='i', if_types='i', let_types='i', leaves={'i': ['x']}),
+    'if5': dict(kinds=['SUB', 'IF'], roots='i', if_types='i', let_types='i', leaves={'i': ['x'], 'b': ['p']}),
     # strict family: no streams, ArrayRef may fail -> error behaviour must be equal as well
     'strict': dict(kinds=['SUB', 'LT', 'IF', 'LET', 'MKS', 'GETA', 'MKA', 'AREF', 'ALEN'], roots='iat',
                    if_types='ia', let_types='ia', leaves={'i': ['x', 'c'], 'b': ['p'], 'a': ['A'], 's': ['SA']}),
